@@ -1,3 +1,178 @@
-import EpsicProofs.FieldArith
+import EpsicProofs.Lemmas.EigenCerts
+import EpsicProofs.Lemmas.Stokes
+import Mathlib.Algebra.Order.Field.Basic
+import Mathlib.Tactic.Positivity
+import Mathlib.Tactic.Linarith
+/-! # C10 — eigen-decompositions diagonalise every Hermitian input (quaternion part; Jacobi rotation)
+
+`Quat.eigenH` is `eigen(Quaternion<T,Hermitian>)` with the square root as a leaf.  Over any
+linearly ordered field, for **every** Hermitian quaternion on which the leaf square roots exist:
+the result has unit determinant and `R ρ R† = diag(s0+p, s0−p)` with `p = |vector| ≥ 0` (larger
+eigenvalue first) — in every branch, including zero polarisation and the axis-aligned inputs. -/
+set_option linter.unusedSectionVars false
+set_option linter.unusedVariables false
 namespace Epsic.C10
+open Epsic Epsic.Pauli
+variable {K : Type} [Field K] [LinearOrder K] [IsStrictOrderedRing K] [DecidableEq K]
+
+/-- what a square-root leaf guarantees when it returns -/
+def SqrtSpec (sqrtFn : K → R K) : Prop := ∀ x r, sqrtFn x = .ok r → r * r = x ∧ 0 ≤ r
+
+def diagJ (a b : K) : Jones K := ⟨⟨a, 0⟩, ⟨0, 0⟩, ⟨0, 0⟩, ⟨b, 0⟩⟩
+/-- the statement proved for every branch -/
+def Diagonalises (q R : Quat K) (p : K) : Prop :=
+  Quat.detU R = 1 ∧ p * p = q.s1*q.s1 + q.s2*q.s2 + q.s3*q.s3 ∧ 0 ≤ p ∧
+  convertUR R * convertHR q * (convertUR R).herm = diagJ (q.s0 + p) (q.s0 - p)
+
+theorem normsq_vec (q : Quat K) : Vec.normsq q.getVector = q.s1*q.s1 + q.s2*q.s2 + q.s3*q.s3 := by
+  simp [Vec.normsq, sumFin_three, Quat.getVector, v3]
+
+/-- first branch (`s1 < 0 ∧ s0 ≠ 0`) -/
+theorem branch1 (q : Quat K) (p m : K) (hp : p*p = q.s1*q.s1 + q.s2*q.s2 + q.s3*q.s3) (hp0 : 0 ≤ p)
+    (hm : m*m*(2*p*(p - q.s1)) = 1) :
+    Diagonalises q ⟨m*q.s3, (-m)*q.s2, (-m)*(p - q.s1), 0⟩ p := by
+  refine ⟨?_, hp, hp0, ?_⟩
+  · simp only [Quat.detU]
+    linear_combination EigenCerts.b1_det q.s0 q.s1 q.s2 q.s3 p m hp hm
+  · ext <;> simp [epsic, diagJ]
+    · linear_combination EigenCerts.b1_re00 q.s0 q.s1 q.s2 q.s3 p m hp hm
+    · linear_combination EigenCerts.b1_im00 q.s0 q.s1 q.s2 q.s3 p m hp hm
+    · linear_combination EigenCerts.b1_re01 q.s0 q.s1 q.s2 q.s3 p m hp hm
+    · linear_combination EigenCerts.b1_im01 q.s0 q.s1 q.s2 q.s3 p m hp hm
+    · linear_combination EigenCerts.b1_re10 q.s0 q.s1 q.s2 q.s3 p m hp hm
+    · linear_combination EigenCerts.b1_im10 q.s0 q.s1 q.s2 q.s3 p m hp hm
+    · linear_combination EigenCerts.b1_re11 q.s0 q.s1 q.s2 q.s3 p m hp hm
+    · linear_combination EigenCerts.b1_im11 q.s0 q.s1 q.s2 q.s3 p m hp hm
+/-- second branch, with `sum = p + s1` however it was evaluated -/
+theorem branch2 (q : Quat K) (p m : K) (hp : p*p = q.s1*q.s1 + q.s2*q.s2 + q.s3*q.s3) (hp0 : 0 ≤ p)
+    (hm : m*m*(2*p*(p + q.s1)) = 1) :
+    Diagonalises q ⟨m*(p + q.s1), 0, (-m)*q.s3, m*q.s2⟩ p := by
+  refine ⟨?_, hp, hp0, ?_⟩
+  · simp only [Quat.detU]
+    linear_combination EigenCerts.b2_det q.s0 q.s1 q.s2 q.s3 p m hp hm
+  · ext <;> simp [epsic, diagJ]
+    · linear_combination EigenCerts.b2_re00 q.s0 q.s1 q.s2 q.s3 p m hp hm
+    · linear_combination EigenCerts.b2_im00 q.s0 q.s1 q.s2 q.s3 p m hp hm
+    · linear_combination EigenCerts.b2_re01 q.s0 q.s1 q.s2 q.s3 p m hp hm
+    · linear_combination EigenCerts.b2_im01 q.s0 q.s1 q.s2 q.s3 p m hp hm
+    · linear_combination EigenCerts.b2_re10 q.s0 q.s1 q.s2 q.s3 p m hp hm
+    · linear_combination EigenCerts.b2_im10 q.s0 q.s1 q.s2 q.s3 p m hp hm
+    · linear_combination EigenCerts.b2_re11 q.s0 q.s1 q.s2 q.s3 p m hp hm
+    · linear_combination EigenCerts.b2_im11 q.s0 q.s1 q.s2 q.s3 p m hp hm
+/-- zero polarisation: the identity, and `ρ` is already `diag(s0, s0)` -/
+theorem degenerate (q : Quat K) (h : q.s1*q.s1 + q.s2*q.s2 + q.s3*q.s3 = 0) :
+    Diagonalises q ⟨1, 0, 0, 0⟩ 0 := by
+  have h1 : q.s1 = 0 := by nlinarith [mul_self_nonneg q.s1, mul_self_nonneg q.s2, mul_self_nonneg q.s3]
+  have h2 : q.s2 = 0 := by nlinarith [mul_self_nonneg q.s1, mul_self_nonneg q.s2, mul_self_nonneg q.s3]
+  have h3 : q.s3 = 0 := by nlinarith [mul_self_nonneg q.s1, mul_self_nonneg q.s2, mul_self_nonneg q.s3]
+  refine ⟨by simp [Quat.detU], by simp [h1, h2, h3], le_refl _, ?_⟩
+  ext <;> simp [epsic, diagJ, h1, h2, h3]
+/-- exactly along the `-s1` axis (reached for `s0 = 0`): the exchange rotation -/
+theorem axis_exchange (q : Quat K) (h1 : q.s1 < 0) (h2 : q.s2 = 0) (h3 : q.s3 = 0) :
+    Diagonalises q ⟨0, 0, -1, 0⟩ (-q.s1) := by
+  refine ⟨by simp [Quat.detU], by simp [h2, h3], by linarith, ?_⟩
+  ext <;> simp [epsic, diagJ, h2, h3] <;> ring
+
+/-- **every result of `eigen` diagonalises its input**, whatever branch was taken -/
+theorem eigen_correct (sqrtFn : K → R K) (hs : SqrtSpec sqrtFn) (q R : Quat K)
+    (h : Quat.eigenH sqrtFn (fun x => decide (x < 0)) q = .ok R) : ∃ p, Diagonalises q R p := by
+  unfold Quat.eigenH at h
+  cases hpv : sqrtFn (Vec.normsq q.getVector) with
+  | error e => simp [hpv, bind, Except.bind] at h
+  | ok p =>
+    obtain ⟨hpp, hp0⟩ := hs _ _ hpv
+    rw [normsq_vec] at hpp
+    simp only [hpv, bind, Except.bind, eq0_eq] at h
+    by_cases hpz : p = 0
+    · simp only [hpz, decide_true, ↓reduceIte, pure, Except.pure] at h
+      have hR : R = ⟨1, 0, 0, 0⟩ := by cases h; rfl
+      subst hR
+      exact ⟨0, degenerate q (by rw [← hpp, hpz]; ring)⟩
+    · have hppos : 0 < p := lt_of_le_of_ne hp0 (Ne.symm hpz)
+      simp only [hpz, decide_false, Bool.false_eq_true, ↓reduceIte] at h
+      by_cases hb : q.s1 < 0 ∧ q.s0 ≠ 0
+      · -- first branch
+        simp only [hb.1, hb.2, decide_true, decide_false, Bool.not_false, Bool.and_self, ↓reduceIte, two_eq] at h
+        cases hr : sqrtFn (2 * p * (p - q.s1)) with
+        | error e => simp [hr] at h
+        | ok r =>
+          obtain ⟨hrr, hr0⟩ := hs _ _ hr
+          have hpos : 0 < 2 * p * (p - q.s1) := by nlinarith
+          have hrne : r ≠ 0 := by intro e; rw [e] at hrr; linarith
+          simp only [hr, sdiv, isZero_eq, hrne, decide_false, Bool.false_eq_true, ↓reduceIte, one_eq, zero_eq, pure, Except.pure] at h
+          have hR : R = ⟨1 / r * q.s3, -(1 / r) * q.s2, -(1 / r) * (p - q.s1), 0⟩ := by cases h; rfl
+          subst hR
+          exact ⟨p, branch1 q p (1 / r) hpp hp0 (by rw [← hrr]; field_simp)⟩
+      · -- second branch
+        have hcond : (decide (q.s1 < 0) && !decide (q.s0 = 0)) = false := by
+          by_cases h1 : q.s1 < 0 <;> by_cases h0 : q.s0 = 0 <;> simp_all
+        simp only [hcond, Bool.false_eq_true, ↓reduceIte] at h
+        by_cases hax : q.s1 < 0 ∧ q.s2 * q.s2 + q.s3 * q.s3 = 0
+        · simp only [hax.1, hax.2, decide_true, Bool.and_self, ↓reduceIte, pure, Except.pure, zero_eq, one_eq] at h
+          have hR : R = ⟨0, 0, -1, 0⟩ := by cases h; rfl
+          subst hR
+          have h2 : q.s2 = 0 := by nlinarith [mul_self_nonneg q.s2, mul_self_nonneg q.s3, hax.2]
+          have h3 : q.s3 = 0 := by nlinarith [mul_self_nonneg q.s2, mul_self_nonneg q.s3, hax.2]
+          exact ⟨-q.s1, axis_exchange q hax.1 h2 h3⟩
+        · have hcond2 : (decide (q.s1 < 0) && decide (q.s2 * q.s2 + q.s3 * q.s3 = 0)) = false := by
+            by_cases h1 : q.s1 < 0 <;> by_cases h0 : q.s2 * q.s2 + q.s3 * q.s3 = 0 <;> simp_all
+          simp only [hcond2, Bool.false_eq_true, ↓reduceIte] at h
+          have hsumpos : 0 < p + q.s1 := by
+            by_cases h1 : q.s1 < 0
+            · have hperp : q.s2 * q.s2 + q.s3 * q.s3 ≠ 0 := fun e => hax ⟨h1, e⟩
+              have hperp' : 0 < q.s2 * q.s2 + q.s3 * q.s3 :=
+                lt_of_le_of_ne (by nlinarith [mul_self_nonneg q.s2, mul_self_nonneg q.s3]) (Ne.symm hperp)
+              have : (p + q.s1) * (p - q.s1) = q.s2 * q.s2 + q.s3 * q.s3 := by linear_combination hpp
+              have hpm : 0 < p - q.s1 := by linarith
+              by_contra hneg
+              have hneg' : p + q.s1 ≤ 0 := not_lt.mp hneg
+              nlinarith
+            · have h1' : 0 ≤ q.s1 := not_lt.mp h1
+              linarith
+          have hpos : 0 < 2 * p * (p + q.s1) := by positivity
+          -- the common tail of both sub-cases
+          have tail : ∀ r, sqrtFn (2 * p * (p + q.s1)) = .ok r →
+              R = ⟨1 / r * (p + q.s1), 0, -(1 / r) * q.s3, 1 / r * q.s2⟩ → ∃ p, Diagonalises q R p := by
+            intro r hr hR
+            obtain ⟨hrr, hr0⟩ := hs _ _ hr
+            have hrne : r ≠ 0 := by intro e; rw [e] at hrr; linarith
+            subst hR
+            exact ⟨p, branch2 q p (1 / r) hpp hp0 (by rw [← hrr]; field_simp)⟩
+          by_cases h1 : q.s1 < 0
+          · have hne : p - q.s1 ≠ 0 := by linarith
+            have hv : (q.s2 * q.s2 + q.s3 * q.s3) / (p - q.s1) = p + q.s1 := by
+              field_simp; linear_combination -hpp
+            simp only [h1, decide_true, ↓reduceIte, sdiv, isZero_eq, hne, decide_false, Bool.false_eq_true, hv,
+              two_eq, one_eq, zero_eq, pure, Except.pure] at h
+            cases hr : sqrtFn (2 * p * (p + q.s1)) with
+            | error e => simp [hr] at h
+            | ok r =>
+              obtain ⟨hrr, hr0⟩ := hs _ _ hr
+              have hrne : r ≠ 0 := by intro e; rw [e] at hrr; linarith
+              simp only [hr, hrne, decide_false, Bool.false_eq_true, ↓reduceIte] at h
+              exact tail r hr (by cases h; rfl)
+          · simp only [h1, decide_false, Bool.false_eq_true, ↓reduceIte, pure, Except.pure, two_eq, one_eq, zero_eq,
+              sdiv, isZero_eq] at h
+            cases hr : sqrtFn (2 * p * (p + q.s1)) with
+            | error e => simp [hr] at h
+            | ok r =>
+              obtain ⟨hrr, hr0⟩ := hs _ _ hr
+              have hrne : r ≠ 0 := by intro e; rw [e] at hrr; linarith
+              simp only [hr, hrne, decide_false, Bool.false_eq_true, ↓reduceIte] at h
+              exact tail r hr (by cases h; rfl)
+
+/-- the larger eigenvalue comes first -/
+theorem larger_first (q R : Quat K) (p : K) (h : Diagonalises q R p) : q.s0 - p ≤ q.s0 + p := by
+  have := h.2.2.1; linarith
+
+/-- why the repair was needed: before it, zero polarisation made the second branch divide by
+`sqrt(2·0·(0+s1)) = 0` -/
+theorem old_degenerate_divides_by_zero (s0 : K) : sdiv (1 : K) (0 : K) = .error .div0 := sdiv_err rfl
+
+/-! non-vacuity: `q = (1, 3, 0, 4)` has `p = 5`, `2p(p+s1) = 80` … use `q = (0, 3, 4, 0)`: `p = 5`,
+`2·5·8 = 80`; a rational instance is `q = (2, 0, 3, 4)`: `p = 5`, `2p·p = 50` (irrational), so the
+instance below takes the `s1`-axis: `q = (7, 2, 0, 0)`, `p = 2`, `2p(p+s1) = 16`, `m = 1/4`. -/
+example : Diagonalises (⟨7, 2, 0, 0⟩ : Quat ℚ) ⟨(1/4)*(2+2), 0, -(1/4)*0, (1/4)*0⟩ 2 :=
+  branch2 ⟨7, 2, 0, 0⟩ 2 (1/4) (by norm_num) (by norm_num) (by norm_num)
+
 end Epsic.C10
